@@ -637,6 +637,7 @@ func c16Run(s *sim.Sim, p *sim.Params) {
 		s.Fail("deadlock", s.BlockedSitesOf(hs...), "client/actor operations did not complete: "+s.BlockedSummary())
 	}
 	w.faultsDone = true
+	s.SetClockJumps(false) // faults stop here: the liveness bound is in simulated seconds
 	// heartbeats tick forever, so "no timer pending" never holds: wait a bounded time instead
 	s.Sleep(5 * time.Second)
 	s.Quiesce(0)
